@@ -225,7 +225,7 @@ class GetMdStateSelection(FnCheck, _Tables):
            'unknown handles contribute nothing; every state occurs at most once (also for repeated / overlapping handles)')
     trusted = ('table lookups return what a scan returns (C11) - assumed as callee contracts here',
                'no_duplicates is defined inductively over append')
-    feasibility_timeout_ms = 400
+    feasibility_timeout_ms = 40
     feasibility_ematch_only = True
 
     def setup(self, b):
@@ -339,7 +339,7 @@ class GetContextStatesSelection(FnCheck, _Tables):
            "states' own, unique handles)")
     trusted = ('table lookups return what a scan returns (C11) - assumed as callee contracts here',
                'state.source_mds is a pure attribute', 'QName equality is value equality of opaque names')
-    feasibility_timeout_ms = 400
+    feasibility_timeout_ms = 40
     feasibility_ematch_only = True
     seq_membership_facts = True
 
@@ -494,3 +494,108 @@ class GetContextStatesSelection(FnCheck, _Tables):
         ex.oblige(st, 'every_state_at_most_once',
                   z3.ForAll([i, j], z3.Implies(z3.And(0 <= i, i < j, j < z3.Length(R)), R[i] != R[j])))
         ex.oblige(st, 'tables_untouched', st.list_seq(self.cs_list) == self.CS)
+
+
+# ---------------------------------------------------------------------------------------------------------------
+# the localization handlers are pass-throughs: what the storage selects (filter pipeline: bounded check + helper proofs)
+# is exactly what the response carries, and the storage is asked with exactly the constraints of the request
+class _LocalizationHandler(FnCheck):
+    prop = 'C20'
+    opaque_ok = True
+    tag = 'S'
+    stable_fields = ('Ref', 'Version', 'Lang', 'TextWidth', 'NumberOfLines', 'localization_storage')
+
+    def setup(self, b):
+        st = b.st
+        ids = b.ex.ctx.builtin_class_ids
+        self.params = {n: b.obj('request.' + n) for n in ('Ref', 'Version', 'Lang', 'TextWidth', 'NumberOfLines')}
+        for n in ('Ref', 'Lang'):
+            st.assume(z3.Select(st.get_arr('C'), self.params[n].e) == ids['list'])
+        self.lang_seq = z3.Select(st.get_arr('L'), self.params['Lang'].e)
+        self.request = b.obj('parsed_request', **self.params)
+        self.result = z3.Const('storage_result', SeqVal)
+        self.storage = b.obj('localization_storage')
+        dev = b.obj('sdc_device', localization_storage=self.storage)
+        self.o = b.obj('self', cls=(LS, 'LocalizationService'), _sdc_device=dev)
+        b.distinct(self.o, dev, self.storage, self.request, *self.params.values())
+        st.ghost['calls'] = ()
+        return self.o, [b.obj('request_data')], {}
+
+    inline = (f'{LS}:LocalizationService.localization_storage', 'sdc11073.provider.porttypes.porttypebase:DPWSPortTypeBase.localization_storage')
+
+    def callees(self, ex):
+        def from_node(ex_, st, args, kwargs):
+            return self.request
+
+        def query(name):
+            def fn(ex_, st, args, kwargs):
+                st.ghost['calls'] = st.ghost['calls'] + ((name, tuple(st.box(a) for a in args),
+                                                         st.list_seq(ex_.concrete_kind(st, args[2], ('ref',))) if len(args) > 2 else None),)
+                r = st.alloc('list')
+                st.set_list_seq(r, self.result)
+                return r
+            return fn
+
+        def response(attr):
+            def fn(ex_, st, args, kwargs):
+                r = st.alloc('Response')
+                st.write_field(r, attr, st.new_list([]))
+                return r
+            return fn
+
+        def reply(ex_, st, args, kwargs):
+            st.ghost['c:response'] = args[1]
+            return st.alloc('CreatedMessage')
+        return {'*.from_node': Pure(from_node, name='request class from_node (C05)'),
+                '*.filter_localized_texts': Pure(query('filter_localized_texts'), name='LocalizationStorage.filter_localized_texts ([B] C20.text_filter)'),
+                '*.get_supported_languages': Pure(query('get_supported_languages'), name='LocalizationStorage.get_supported_languages'),
+                '*.GetLocalizedTextResponse': Pure(response('Text'), name='GetLocalizedTextResponse()'),
+                '*.GetSupportedLanguagesResponse': Pure(response('Lang'), name='GetSupportedLanguagesResponse()'),
+                '*.set_mdib_version_group': Pure(lambda e, s, a, k: NONE, name='response.set_mdib_version_group'),
+                '*.mk_reply_soap_message': Pure(reply, name='msg_factory.mk_reply_soap_message')}
+
+    def response_list(self, ex, st, attr):
+        resp = st.ghost.get('c:response')
+        if resp is None:
+            return None
+        resp = ex.concrete_kind(st, resp, ('ref',))
+        lst = ex.concrete_kind(st, st.read_field(resp, attr), ('ref',))
+        return st.list_seq(lst)
+
+
+@register
+class GetLocalizedTextPassThrough(_LocalizationHandler):
+    id = 'C20.get_localized_text_handler'
+    target = f'{LS}:LocalizationService._on_get_localized_text'
+    doc = ('_on_get_localized_text: the storage is asked exactly once, with exactly the Ref, Version, Lang, TextWidth and '
+           'NumberOfLines constraints of the request (unchanged - in particular the language list is not filtered '
+           'beforehand: an unknown language selects nothing), and the response carries exactly the texts it returned')
+
+    def post(self, ex, st0, st, outcome, b):
+        if outcome[0] == 'exc':
+            return
+        calls = [c for c in st.ghost['calls'] if c[0] == 'filter_localized_texts']
+        ex.oblige(st, 'storage_asked_exactly_once', z3.BoolVal(len(calls) == 1))
+        if len(calls) == 1:
+            args = calls[0][1]
+            names = ('Ref', 'Version', 'Lang', 'TextWidth', 'NumberOfLines')
+            same_obj = z3.And(*[args[i] == Val.ref(self.params[n].e) for i, n in enumerate(names)]) if len(args) == 5 else z3.BoolVal(False)
+            ex.oblige(st, 'with_exactly_the_constraints_of_the_request', same_obj)
+            ex.oblige(st, 'language_list_unchanged', calls[0][2] == self.lang_seq if calls[0][2] is not None else z3.BoolVal(False))
+        R = self.response_list(ex, st, 'Text')
+        ex.oblige(st, 'response_carries_exactly_the_selected_texts', R == self.result if R is not None else z3.BoolVal(False))
+
+
+@register
+class GetSupportedLanguagesPassThrough(_LocalizationHandler):
+    id = 'C20.get_supported_languages_handler'
+    target = f'{LS}:LocalizationService._on_get_supported_languages'
+    doc = '_on_get_supported_languages: the response lists exactly what LocalizationStorage.get_supported_languages returns'
+
+    def post(self, ex, st0, st, outcome, b):
+        if outcome[0] == 'exc':
+            return
+        calls = [c for c in st.ghost['calls'] if c[0] == 'get_supported_languages']
+        ex.oblige(st, 'storage_asked_exactly_once', z3.BoolVal(len(calls) == 1))
+        R = self.response_list(ex, st, 'Lang')
+        ex.oblige(st, 'response_lists_exactly_the_stored_languages', R == self.result if R is not None else z3.BoolVal(False))
